@@ -57,11 +57,11 @@ META = {
                  'connection classes\' createTable / dropTable / _SO_createJoinTable / _SO_dropJoinTable / _SO_createIndex are '
                  'translated, run against the catalogue model (world-threading reading Model/PyDdlW.lean; the statement reader '
                  'execSQL of Model/DdlXW.lean is hand-written specification) and proved equal to createTableG / dropTableG / '
-                 'createLinks / dropLinks / createIdx (createTable / createIndexes not on MySQL, whose ALTER TABLE ... ADD INDEX the '
-                 'reader does not follow); addColumn (7 dialects) and delColumn (6) are proved to issue exactly the model\'s '
-                 'statements; sqlite delColumn (recreateTableWithoutColumn) is translated, its index loss is a theorem about the '
-                 'translated source (C14_translated_delColumn_drops_indexes_full_FALSE), its general statement sequence is not '
-                 'proved; not translated: sqlmeta.addColumn / delColumn (class surgery), the __init__ methods of the column '
+                 'createLinks / dropLinks / createIdx (all seven dialects; MySQL\'s ALTER TABLE ... ADD INDEX is followed by the '
+                 'reader); addColumn and delColumn (7 dialects each, sqlite\'s recreateTableWithoutColumn included) are proved to '
+                 'issue exactly the model\'s statements; the index loss of sqlite delColumn is a theorem about the translated '
+                 'source (C14_translated_delColumn_drops_indexes_full_FALSE); the effect of those statements on table CONTENTS '
+                 '(rows) is not modelled in Lean (executed SQLite scenarios); not translated: sqlmeta.addColumn / delColumn (class surgery), the __init__ methods of the column '
                  'classes, DBAPI.createSQL (sqlmeta.createSQL)'],
     'assumptions': ['well-formed identifiers (decidable hypothesis `declWF`): table / id / db names and foreign-key target names are '
                     'non-empty words without blanks, quotes, commas or parentheses and are not constraint keywords; defaultSQL is a '
